@@ -142,6 +142,15 @@ def run(rep, tier, seed):
             nfl = [(fid_of(i_), bits_of(v)) for i_, v in fl]
             line = ' '.join(['S', 'compute', WHICH[name]] + fields_tokens(nfl) + [str(k)])
             b.add('compute:%s:%s' % (stack, WHICH[name]), line, out, parse_model_bits, fails, dict(layer='compute', op=WHICH[name], stack=stack, packet=pkt.hex(), position=k), key=line)
+            # the same call on what a lossy link delivers: the payload cut inside its last byte (the length functions round up to whole
+            # bytes, the checksum functions pad the last word with zeros); correspondence only, no RFC value exists for such a frame
+            cut = rnd.randint(1, 7)
+            if pd.payload.length >= cut:
+                fl2 = fl[:-1] + [('Payload', pd.payload[0:pd.payload.length - cut])]
+                out2 = obs_bits(with_timeout(lambda: fn(fl2, k)))
+                nfl2 = [(fid_of(i_), bits_of(v)) for i_, v in fl2]
+                line2 = ' '.join(['S', 'compute', WHICH[name]] + fields_tokens(nfl2) + [str(k)])
+                b.add('compute-cut-payload:%s' % WHICH[name], line2, out2, parse_model_bits, None, dict(layer='compute', op=WHICH[name], stack=stack, packet=pkt.hex(), position=k, payload_bits_cut=cut), key=line2)
         # through decompress: a random subset of the computable fields marked compute, everything else value-sent
         for _ in range(2):
             subset = [k for k, f in comp if rnd.random() < 0.6]
